@@ -1,7 +1,7 @@
 """Sidecar contracts (DESIGN.md §2.3, §6).  /repo is never edited for them."""
 import importlib
 
-MODULES = ["helpers", "key_helpers", "stack_ast", "fee_field", "int_fields", "txn_types", "addr_fields", "generic", "tables", "parse_teal", "detectors", "engine", "store", "addr_store", "regex", "dispatch"]
+MODULES = ["helpers", "key_helpers", "stack_ast", "fee_field", "int_fields", "txn_types", "addr_fields", "generic", "tables", "parse_teal", "detectors", "engine", "store", "addr_store", "regex", "dispatch", "output"]
 
 
 def load_all():
